@@ -503,8 +503,14 @@ fn subst(ts: TokenStream, binds: &HashMap<String, TokenStream>, reps: &HashMap<S
 /// Returns the instantiated transcriber text (rule R8). `def_items`: where the macro_rules definition lives (may be another
 /// file); `items`: where the invocation must be found.
 fn instantiate_macro(def_items: &[&syn::Item], items: &[&syn::Item], name: &str, args: &str) -> Result<String, String> {
-    let args_ts = TokenStream::from_str(args).map_err(|e| format!("macro args: {}", e))?;
-    let arg_list: Vec<TokenStream> = split_top_commas(args_ts.clone());
+    // `first, ..` selects the unique invocation whose leading arguments are `first` and instantiates it with the
+    // arguments that invocation really has (so an edit of the invocation's other arguments is decided, not a lost anchor).
+    let (args, open_ended) = match args.trim_end().strip_suffix("..") {
+        Some(p) => (p.trim_end().trim_end_matches(',').to_string(), true),
+        None => (args.to_string(), false),
+    };
+    let args_ts = TokenStream::from_str(&args).map_err(|e| format!("macro args: {}", e))?;
+    let mut arg_list: Vec<TokenStream> = split_top_commas(args_ts.clone());
     let want = squash(&args_ts.to_string());
     let mut invoked = false;
     let mut def: Option<&syn::ItemMacro> = None;
@@ -515,15 +521,32 @@ fn instantiate_macro(def_items: &[&syn::Item], items: &[&syn::Item], name: &str,
             }
         }
     }
+    let mut hits = 0;
     for it in items {
         if let syn::Item::Macro(m) = it {
             if m.mac.path.is_ident(name) {
-                let got = squash(&m.mac.tokens.to_string());
-                if got.trim_end_matches(',') == want {
-                    invoked = true;
+                if open_ended {
+                    let got: Vec<TokenStream> = split_top_commas(m.mac.tokens.clone());
+                    let pre: Vec<String> = arg_list.iter().map(|a| squash(&a.to_string())).collect();
+                    if got.len() >= pre.len() && got.iter().zip(pre.iter()).all(|(g, p)| squash(&g.to_string()) == *p) {
+                        hits += 1;
+                        invoked = true;
+                        if hits == 1 {
+                            // remember the real argument list
+                            arg_list = got;
+                        }
+                    }
+                } else {
+                    let got = squash(&m.mac.tokens.to_string());
+                    if got.trim_end_matches(',') == want {
+                        invoked = true;
+                    }
                 }
             }
         }
+    }
+    if open_ended && hits > 1 {
+        return Err(format!("invocation {}!({}, ..) is ambiguous ({} matches)", name, args, hits));
     }
     let def = def.ok_or_else(|| format!("macro_rules! {} not found", name))?;
     if !invoked {
